@@ -73,14 +73,19 @@ def reanalyse(p, strategies):
     return designrun.analyse(p, strategies=strategies)
 
 
-def report(res, prefix, r, still_fails, what, detail=None):
-    """Shrink the program and record a violation."""
+def report(res, prefix, r, still_fails, what, detail=None, causes_allowed=None):
+    """Shrink the program and record a violation.  The signature is
+    <failure class>:<root cause> when the shrunk program has the shape of a
+    recorded root cause (harness/causes.py), else failure class + shape."""
+    import causes
     p = r["program"]
     try:
         small = design_batch.shrink(p, still_fails)
     except Exception:  # noqa
         small = p
-    res.violations.append(Violation(design_batch.signature(prefix, small),
+    cause = causes.classify(small, causes_allowed)
+    sig = "%s:cause=%s" % (prefix, cause) if cause else design_batch.signature(prefix, small)
+    res.violations.append(Violation(sig,
                                     "%s on %s program with constraints %s" % (what, design_batch.shape(small),
                                                                               design_batch.constraint_kinds(small)),
                                     {"program": small, "original_program": p, "detail": detail}))
